@@ -22,6 +22,8 @@ type Val struct {
 	Tuple []*Val // tuple-typed values
 	Fn    *ssa.Function
 	Binds []*Val
+	Boxed *Val // for interface values made by MakeInterface: the boxed operand
+	StructLoc bool // spec only: T is the address of a struct-typed location (field or element)
 }
 
 // Loc is a scalar heap location: H[Comp][Ref] or H[Comp][Ref][Idx].
